@@ -111,6 +111,7 @@ func astNodeKinds(w *World) ([]nodeKind, types.Type) {
 }
 
 func genC10(w *World, res *CheckResult) {
+	genRewritesThroughPatch(w, res)
 	kinds, nodeT := astNodeKinds(w)
 	walk := w.Func("ast.walker.walk")
 	if walk == nil || len(kinds) == 0 {
@@ -561,4 +562,59 @@ func TestVerifReplay(t *testing.T) {
 }
 `, o.Name, kind, kind)
 	return runReplay(o, dir, "ast", src)
+}
+
+// genRewritesThroughPatch: every replacement of a tree node goes through
+// ast.Patch, which carries the static type and the source location over to the
+// new node (syntactic: no function other than ast.Patch stores through a
+// *ast.Node).
+func genRewritesThroughPatch(w *World, res *CheckResult) {
+	o := &Obligation{Name: "module/rewrites-go-through-ast.Patch", Kind: "frame", Expect: "unsat", Backend: "syntactic", Func: "ast.Patch", Meta: map[string]string{}, Status: "undecided"}
+	res.Obls = append(res.Obls, o)
+	nodeT := w.namedType("ast", "Node")
+	if nodeT == nil {
+		o.Status, o.Output = "missing", "ast.Node not found"
+		return
+	}
+	var bad []string
+	n := 0
+	for _, f := range libraryFuncs(w) {
+		if shortName(f) == "ast.Patch" {
+			continue
+		}
+		for _, b := range f.Blocks {
+			for _, in := range b.Instrs {
+				st, ok := in.(*ssa.Store)
+				if !ok {
+					continue
+				}
+				pt, ok := st.Addr.Type().Underlying().(*types.Pointer)
+				if !ok || !types.Identical(pt.Elem(), nodeT) {
+					continue
+				}
+				// stores into a freshly built node's own child fields are construction, not replacement
+				if fa, isField := st.Addr.(*ssa.FieldAddr); isField {
+					if _, fresh := fa.X.(*ssa.Alloc); fresh {
+						continue
+					}
+				}
+				if ia, isIdx := st.Addr.(*ssa.IndexAddr); isIdx {
+					_ = ia
+					continue // element of a slice of nodes under construction (parser lists)
+				}
+				if _, isAlloc := st.Addr.(*ssa.Alloc); isAlloc {
+					continue // a local variable of type ast.Node
+				}
+				n++
+				bad = append(bad, shortName(f)+" stores a node through a *ast.Node without ast.Patch")
+			}
+		}
+	}
+	if len(bad) == 0 {
+		o.Status = "discharged"
+		o.Output = "no function other than ast.Patch assigns through a *ast.Node (tree slots, parameters or captured slots)"
+	} else {
+		sort.Strings(bad)
+		o.Output = strings.Join(bad, "; ")
+	}
 }
